@@ -329,6 +329,12 @@ func c10Backward(u *vfUnit, part int) {
 		}
 		return nil
 	}
+	store.ListAtErr = func(p string) error {
+		if where == "listat" {
+			return cur
+		}
+		return nil
+	}
 	store.FailAt = func(p string, off int64, n int, write bool) error {
 		if where == "object" {
 			return cur
@@ -380,6 +386,10 @@ func c10Backward(u *vfUnit, part int) {
 		{"list", "Filelist/Fstat", vfPkt{Type: rfFstat, Handle: hFile}},
 		{"list", "RealPath", vfPkt{Type: rfRealpath, Path: "x"}},
 		{"list", "Readlink", vfPkt{Type: rfReadlink, Path: "/file"}},
+		// the handler call succeeds, the lister it returned fails: the error is the handler's all the same
+		{"listat", "Stat-lister.ListAt", vfPkt{Type: rfStat, Path: "/file"}},
+		{"listat", "Lstat-lister.ListAt", vfPkt{Type: rfLstat, Path: "/file"}},
+		{"listat", "Fstat-lister.ListAt", vfPkt{Type: rfFstat, Handle: hFile}},
 		{"object", "ReadAt", vfPkt{Type: rfRead, Handle: hFile, Off: 0, Len: 10}},
 		{"object", "WriteAt", vfPkt{Type: rfWrite, Handle: hFile, Off: 0, Data: []byte("zz")}},
 	}
@@ -388,6 +398,10 @@ func c10Backward(u *vfUnit, part int) {
 			continue
 		}
 		for _, pr := range probes {
+			if pr.where == "listat" && e.code == rfEOF {
+				// io.EOF from ListAt is the end-of-list signal of the ListerAt contract: "no entry" (not-exist), not an error of the handler's
+				continue
+			}
 			cur, where = e.err, pr.where
 			id++
 			p := pr.pkt
